@@ -215,7 +215,9 @@ def run(prog, ctx):
             early = None
             for b, site in f.calls():
                 nm = (site.get("callee") or "").rsplit("::", 1)[-1]
-                if nm in ("len", "capacity", "is_empty", "iter_mut", "as_mut_ptr", "deref_mut", "index_mut", "into_iter", "into_boxed_slice", "reserve", "with_capacity", "remaining") or any(b in body for _, body in fill_loops):
+                if nm in ("len", "capacity", "is_empty", "iter_mut", "as_mut_ptr", "deref_mut", "index_mut", "into_iter", "into_boxed_slice", "reserve", "with_capacity", "remaining",
+                          # sizing / initialising the buffer writes it, it does not derive anything from its content
+                          "resize", "resize_with", "fill", "fill_with", "clear", "truncate", "push", "extend", "extend_from_slice", "reserve_exact", "shrink_to_fit", "set_len") or any(b in body for _, body in fill_loops):
                     continue
                 uses = False
                 for a in site["args"]:
